@@ -29,6 +29,7 @@ GENERATORS = [
     ('gen_py_inputs', 'PyInputs.lean'),
     ('gen_py_strings', 'PyStrings.lean'),
     ('gen_py_loops', 'PyLoops.lean'),
+    ('gen_py_parsedisp', 'PyParseDisp.lean'),
 ]
 
 
